@@ -21,14 +21,17 @@ LEVEL_TEXT = ("Machine-checked proof (Coq, closed under the global context) over
               "counter stay below 2^bits, an id handed out is never live, the search loop terminates while fewer "
               "than 2^bits channels are live (and provably never ends when all are), local histories keep live ids "
               "distinct unconditionally, and all histories (peer reservations with a pending window included) keep "
-              "live and pending ids pairwise distinct provided the counter travels fewer than 2^bits steps between "
+              "live and pending ids pairwise distinct, and only a close/unlink of that channel or an OPEN_FAILURE "
+              "for a still-opening local channel ever removes a live entry, provided the counter travels fewer than 2^bits steps between "
               "a reservation and its registration — a hypothesis shown necessary by a small-modulus witness; the "
               "model is tied to transport.py by a source translator and a differential run of the model's own "
               "definitions (vm_compute) against a real Transport every run.")
 LEVEL_NOTE = ("Trusted: Coq kernel + vm_compute; gen/c23.py (AST shape check, fail closed); hand-written model "
               "coq/Model/C23.v validated by the correspondence run; atomicity of the sections guarded by "
               "Transport.lock (checked structurally by the translator, not proved); the weak-value map is modelled "
-              "as a plain map (the harness keeps channel objects alive).  Residual assumption: the counter travels "
+              "as a plain map (the harness keeps channel objects alive); the two-thread schedules (local open "
+              "placed inside the peer open's reservation) and the open-channel-still-in-map oracle run on the real "
+              "code only.  Residual assumption: the counter travels "
               "fewer than 2^24 steps while a peer-opened channel is pending (C23_window_witness shows what happens "
               "otherwise).")
 TECHNIQUE = "Coq proof (invariant over histories, pigeonhole for termination) + source translator + vm_compute differential correspondence"
@@ -53,8 +56,14 @@ class Driver:
         self.problems = []         # (key, what, detail)
         self.sent = []
         self.t._send_message = lambda m: self.sent.append(m.asbytes()[:1])
+        import logging
+        logging.getLogger("paramiko").setLevel(logging.CRITICAL + 1)   # stray-message warnings are expected
+        self.t.clear_to_send.set()     # never started: _send_user_message then drops at once instead of waiting
+        self.opening = []              # the model's `opening` list = keys of channel_events
+        self.open_objs = {}            # id -> channel object of every channel that is open (not closed / failed)
+        self.dropped = set()
         for x in reversed(live0):
-            self._put(x, Stub())
+            self._put(x, self._new_chan(x))
         self.t.server_object = self
         self.t.server_mode = True
         self.inner = None
@@ -62,10 +71,26 @@ class Driver:
         self.reserved = None
 
     # -- helpers -------------------------------------------------------------------------
+    def _new_chan(self, cid):
+        from paramiko.channel import Channel
+        ch = Channel(cid)
+        ch._set_transport(self.t)
+        return ch
+
     def _put(self, x, obj):
         self.t._channels.put(x, obj)
         self.keep[x] = obj
         self.order.insert(0, x)
+        self.open_objs[x] = obj
+
+    def check_open(self, where):
+        """every channel that was opened and not closed is still in the map, under its id, as itself"""
+        for x, obj in list(self.open_objs.items()):
+            if x not in self.dropped and self.t._channels.get(x) is not obj:
+                self.dropped.add(x)
+                self.problems.append(("open-channel-dropped", "a channel that is still open is no longer in the "
+                                      "live map under its id (its id can now be handed out again)",
+                                      {"id": x, "after": where}))
 
     def _check_alloc(self, before_counter, live_before, cid, where):
         if not (0 <= cid < M24):
@@ -73,6 +98,9 @@ class Driver:
         if cid in live_before:
             self.problems.append(("id-already-live", "_next_channel handed out an id that is in the live map",
                                   {"id": cid, "at": where}))
+        if cid in self.open_objs:
+            self.problems.append(("id-of-open-channel-reassigned", "_next_channel handed out the id of a channel "
+                                  "that is still open", {"id": cid, "at": where}))
         if cid in self.pending:
             self.problems.append(("id-pending", "_next_channel handed out an id that is reserved for a peer-opened "
                                   "channel", {"id": cid, "at": where}))
@@ -103,15 +131,54 @@ class Driver:
             before, live_before = t._channel_counter, self.live_keys()
             cid = t._next_channel()
             self._check_alloc(before, live_before, cid, where)
-            self._put(cid, Stub())
+            self._put(cid, self._new_chan(cid))
+            t.channel_events[cid] = threading.Event()      # open_channel, same section
+            t.channels_seen[cid] = True
         finally:
             t.lock.release()
+        self.opening.insert(0, cid)
         self.outs.append(cid)
 
-    def close(self, x):
-        self.t._unlink_channel(x)
+    def close(self, x, how=0):
+        obj = self.keep.get(x)
+        if obj is not None and how == 1 and hasattr(obj, "_handle_close"):
+            obj._handle_close(None)            # peer CHANNEL_CLOSE
+        elif obj is not None and how == 2 and hasattr(obj, "_unlink") and not obj.closed:
+            obj._unlink()                      # transport loss
+        else:
+            self.t._unlink_channel(x)
         self.keep.pop(x, None)
+        self.open_objs.pop(x, None)
         self.order = [y for y in self.order if y != x]
+        self.outs.append(-1)
+
+    def open_success(self, x):
+        from paramiko.message import Message
+        m = Message()
+        for v in (x, 77, 1 << 20, 1 << 15):
+            m.add_int(v)
+        m.rewind()
+        was_live = self.t._channels.get(x) is not None
+        self.t._parse_channel_open_success(m)
+        if was_live:
+            self.opening = [y for y in self.opening if y != x]
+        self.outs.append(-1)
+
+    def open_failure(self, x):
+        from paramiko.message import Message
+        m = Message()
+        m.add_int(x)
+        m.add_int(1)
+        m.add_string("no")
+        m.add_string("en")
+        m.rewind()
+        self.t._parse_channel_open_failure(m)
+        if x in self.opening:
+            # the open failed: that channel is not open any more
+            self.opening = [y for y in self.opening if y != x]
+            self.keep.pop(x, None)
+            self.open_objs.pop(x, None)
+            self.order = [y for y in self.order if y != x]
         self.outs.append(-1)
 
     def peer_open(self, accept, inner, where):
@@ -142,6 +209,8 @@ class Driver:
                                       {"id": p, "at": where}))
             self.keep[p] = ch
             self.order.insert(0, p)
+            if ch is not None:
+                self.open_objs[p] = ch
         self.outs.append(-1)
 
     # ServerInterface stand-in ------------------------------------------------------------
@@ -167,15 +236,24 @@ class Driver:
         if op[0] == "local":
             self.local_open(where)
         elif op[0] == "close":
-            self.close(op[1])
+            self.close(op[1], op[2] if len(op) > 2 else 0)
+        elif op[0] == "success":
+            self.open_success(op[1])
+        elif op[0] == "failure":
+            self.open_failure(op[1])
         elif op[0] == "peer":
             self.peer_open(op[1], op[2], where)
+        self.check_open("%s %s" % (where, list(op[:2])))
 
     def finish(self):
         keys = self.live_keys()
         if keys != set(self.order) or len(self.order) != len(set(self.order)):
             self.problems.append(("map-inconsistent", "live map differs from the ids opened and not closed",
                                   {"map": sorted(keys), "expected": sorted(self.order)}))
+        if set(self.t.channel_events.keys()) != set(self.opening):
+            self.problems.append(("events-inconsistent", "channel_events keys differ from the local opens still "
+                                  "waiting for a reply", {"events": sorted(self.t.channel_events.keys()),
+                                                          "expected": sorted(set(self.opening))}))
         # cleanup only: keep Channel.__del__ -> close() from waiting on the never-started transport
         for ch in list(self.t.server_accepts) + list(self.keep.values()):
             if hasattr(ch, "closed"):
@@ -209,10 +287,16 @@ def gen_history(rng):
         if r < 0.70 and depth == 0:
             inner = [gen_op(1) for _ in range(rng.choice([0, 0, 1, 2, 4]))]
             return ("peer", rng.random() < 0.8, inner)
-        if r < 0.95:
-            # close an id likely to be live (near c0) or a random one
-            return ("close", rng.choice([(c0 + rng.randrange(0, 30)) % M24, (c0 + rng.randrange(0, 6)) % M24,
-                                         rng.randrange(M24)]))
+        pick = rng.choice([(c0 + rng.randrange(0, 30)) % M24, (c0 + rng.randrange(0, 6)) % M24,
+                           (c0 + rng.randrange(0, 6)) % M24, rng.randrange(M24)])
+        if r < 0.84:
+            # close an id likely to be live (near c0) or a random one: _unlink_channel / peer CLOSE / loss
+            return ("close", pick, rng.choice([0, 1, 1, 2]))
+        if r < 0.90:
+            # the peer's reply to a local open -- or a stray one naming an established / unknown channel
+            return ("success", pick)
+        if r < 0.97:
+            return ("failure", pick)
         return ("local",)
 
     for _ in range(n):
@@ -220,26 +304,27 @@ def gen_history(rng):
     return c0, live0, ops
 
 
+MODEL_OP = {"local": "LocalOpen", "close": "Close", "success": "OpenSuccess", "failure": "OpenFailure"}
+
+
+def model_op(op):
+    return (MODEL_OP[op[0]],) if op[0] == "local" else (MODEL_OP[op[0]], op[1])
+
+
 def run_history(c0, live0, ops):
     d = Driver(c0, live0)
     flat = []          # model ops, flattened, with the real reserved ids
     for k, op in enumerate(ops):
+        d.apply(op, "op%d" % k)
         if op[0] == "peer":
-            d.peer_open(op[1], op[2], "op%d" % k)
-            p = d.reserved
             flat.append(("PeerReserve",))
-            for iop in op[2]:
-                flat.append(("LocalOpen",) if iop[0] == "local" else ("Close", iop[1]))
-            flat.append(("PeerRegister", p) if op[1] else ("PeerReject", p))
-        elif op[0] == "local":
-            d.local_open("op%d" % k)
-            flat.append(("LocalOpen",))
+            flat += [model_op(iop) for iop in op[2]]
+            flat.append(("PeerRegister", d.reserved) if op[1] else ("PeerReject", d.reserved))
         else:
-            d.close(op[1])
-            flat.append(("Close", op[1]))
+            flat.append(model_op(op))
     d.finish()
     # order of outs: the driver appends the reserve's id, then inner outs, then -1 for the register/reject
-    exp = [0, d.t._channel_counter, len(d.outs)] + d.outs + [-2] + d.order
+    exp = [0, d.t._channel_counter, len(d.outs)] + d.outs + [-2] + d.order + [-3] + d.opening
     return d, flat, exp
 
 
